@@ -59,6 +59,10 @@ type Block struct {
 	// keys and values, roles, dense tag values. A dense tag KEY "" keeps an index
 	// of its own (0 is the delimiter of keys_vals). false: "" gets its own entry.
 	EmptyAtZero bool
+	// ZeroString, if not empty, is written at string-table index 0 and used from there
+	// (index 0 is an ordinary entry for everything but the keys of dense nodes, where 0 is
+	// the delimiter; a block of ways / relations may well have its first real string there).
+	ZeroString string
 }
 
 // Group is one primitive group: exactly one of the fields is used.
@@ -147,6 +151,8 @@ type strtab struct {
 	// emptyAtZero: id("") is 0; denseKey("") still gets a non-zero entry
 	emptyAtZero bool
 	emptyKey    int
+	zero        bool // index 0 holds a real string
+	zeroKey     int
 }
 
 func newStrtabZ(extra []string, emptyAtZero bool) *strtab {
@@ -177,6 +183,14 @@ func (t *strtab) denseKey(s string) int64 {
 			t.emptyKey = len(t.s) - 1
 		}
 		return int64(t.emptyKey)
+	}
+	if t.zero && s == t.s[0] {
+		// a dense key cannot use index 0: a second entry for the same string
+		if t.zeroKey == 0 {
+			t.s = append(t.s, s)
+			t.zeroKey = len(t.s) - 1
+		}
+		return int64(t.zeroKey)
 	}
 	return t.id(s)
 }
@@ -432,6 +446,11 @@ func encPlainNode(n *DNode, st *strtab) []byte {
 // PrimitiveBlock returns the serialized PrimitiveBlock message.
 func (b *Block) PrimitiveBlock() []byte {
 	st := newStrtabZ(b.ExtraStrings, b.EmptyAtZero)
+	if b.ZeroString != "" {
+		st.s[0] = b.ZeroString
+		st.idx[b.ZeroString] = 0
+		st.zero = true
+	}
 	// Damage is "<target>:<name>" with target dense, way, rel or block.
 	part := func(target string) string {
 		if strings.HasPrefix(b.Damage, target+":") {
